@@ -677,8 +677,16 @@ def prove_evaluate(src_root, ex: Explorer):
         aborted = sname == 'ABORTED'
         change = aborted != (reason is not None)
         evaluated = []
-        it.hooks[f'{TM}:TransferManager._evaluate_aborted_state'] = lambda it2, f, a, k: (evaluated.append(a[1]), (change, reason))[1]
-        mgr = new(it, TM, 'TransferManager', _transfers=[t])
+        # a second upload, evaluated AFTER the first one, that must be aborted for ANOTHER reason: every abort carries the reason of its own
+        # upload (a reason applied to the wrong upload makes a blocked upload look user-aborted, which is never queued again)
+        calls2 = []
+        st2 = Stub('state', VALUE=enum(it, 'transfer.state', 'TransferState.State', 'QUEUED'),
+                   queue=Recorder('queue', fn=lambda it2, a, k: calls2.append(('queue',)), is_async=True, yields=False),
+                   abort=Recorder('abort', fn=lambda it2, a, k: calls2.append(('abort', k.get('reason', a[0] if a else None))), is_async=True, yields=False))
+        t2 = new(it, TMODEL, 'Transfer', username='eve', remote_path='g', abort_reason=None, state=st2, direction=enum(it, TMODEL, 'TransferDirection', 'UPLOAD'))
+        it.hooks[f'{TM}:TransferManager._evaluate_aborted_state'] = lambda it2, f, a, k: \
+            (True, 'reason of the second upload') if a[1] is t2 else (evaluated.append(a[1]), (change, reason))[1]
+        mgr = new(it, TM, 'TransferManager', _transfers=[t, t2])
         it.natives['builtins.filter'] = Native('builtins.filter', lambda it2, a, k: [x for x in it2.iterate(a[1]) if it2.truth(it2.call(a[0], [x], {})) is True])
         run(it, it.getattr(mgr, 'manage_shares_changed'))
         considered = upload and sname not in ('COMPLETE', 'FAILED')
@@ -693,6 +701,8 @@ def prove_evaluate(src_root, ex: Explorer):
         else:
             want = []
         ctx.prove('C08.cycle.transition', calls == want and evaluated == [t], f'state {sname}, reason {reason!r}: issued {calls}, expected {want}')
+        ctx.prove('C08.cycle.own-reason', calls2 == [('abort', 'reason of the second upload')],
+                  f'the second upload must be aborted once, for ITS reason: {calls2}')
         if not change and reason:
             ctx.prove('C08.cycle.records-reason', t.attrs['abort_reason'] == reason)
     ex.run(cycle, 'cycle')
